@@ -72,6 +72,10 @@ func selectAncestor(nodeSet NodeSet) Result {
 	result := make([]store.Cursor, 0)
 
 	for _, i := range nodeSet {
+		if i.Pos() == 0 {
+			continue
+		}
+
 		result = appendAncestors(i.Parent(), result)
 	}
 
@@ -89,11 +93,12 @@ func selectAncestorOrSelf(nodeSet NodeSet) Result {
 }
 
 func appendAncestors(cursor store.Cursor, result []store.Cursor) []store.Cursor {
+	result = append(result, cursor)
+
 	if cursor.Pos() == 0 {
 		return result
 	}
 
-	result = append(result, cursor)
 	return appendAncestors(cursor.Parent(), result)
 }
 
